@@ -3,7 +3,8 @@
 //! ledger hook for the stack-temporary AEAD key.
 
 use super::common::*;
-use crate::engine::{Obs, Property, Tier, Verdict};
+use crate::engine::{Extra, Obs, Property, Tier, Verdict};
+use serde_json::json;
 use crate::gen::{self, Session};
 use crate::refmodel::hpke_ref::{self as r, Suite};
 use crate::suite::{self, DropImage, Fail, ProbePlan, ScriptRng, LEDGER_NAMES};
@@ -139,6 +140,24 @@ fn check(case: &Case, obs: &mut Obs) -> Verdict {
         if !stale.is_empty() {
             obs.label(format!("observation:stale-copy-of-{}-outside-live-field:{}:{:?}", name, sess.suite.aead.name(), sess.suite.kdf));
         }
+        // the secret under a constant XOR mask (what an HMAC object keyed with it stores: key ^ 0x36,
+        // key ^ 0x5c) is the secret for every practical purpose. Nothing in the key schedule ever uses
+        // these secrets as an HMAC key while the context is built, so such bytes cannot be stale stack
+        // content: if they are in the slot after the drop, the context kept a keyed object.
+        if secret.len() >= 12 {
+            for c in 1..=255u8 {
+                let masked: Vec<u8> = secret.iter().map(|b| b ^ c).collect();
+                if let Some(o) = find_all(&img.after, &masked).first() {
+                    return Verdict::fail(
+                        format!("C16/{}/masked-copy-survives", name),
+                        format!(
+                            "{:?} of {} mode {}: after the drop the {} XOR {:#04x} is present at offset {} of the {}-byte value (an object keyed with the secret is kept in the context and not wiped)",
+                            case.role, sess.suite.label(), sess.mode, name, c, o, img.after.len()
+                        ),
+                    );
+                }
+            }
+        }
     }
     if !located_all {
         return Verdict::skip("secret not located in the memory image before the drop: not observable");
@@ -178,6 +197,58 @@ fn check(case: &Case, obs: &mut Obs) -> Verdict {
     Verdict::Pass
 }
 
+/// Builds and runs probes/c16 in release mode WITHOUT the hook cfg: wipes written as plain stores
+/// can be deleted by the optimiser when the memory is freed right afterwards, and the hooked build
+/// cannot see that (the ledger call reads the buffer and keeps the stores alive).
+fn release_probe(x: &mut Extra) {
+    let tree = std::env::var("HPKE_TREE").unwrap_or_else(|_| "/repo".into());
+    let tbase = std::env::var("VERIF_TARGET_BASE").unwrap_or_else(|_| crate::engine::root().join("target").to_string_lossy().into_owned());
+    let dir = crate::engine::root().join("probes").join("c16");
+    let mut cmd = std::process::Command::new("cargo");
+    cmd.current_dir(&dir).env("CARGO_NET_OFFLINE", "true").env_remove("RUSTFLAGS").args(["run", "--release", "--offline", "--quiet", "--target-dir", &format!("{}/c16probe", tbase)]);
+    if tree != "/repo" {
+        cmd.args(["--config", &format!("paths=[\"{}\"]", tree)]);
+    }
+    let out = match cmd.output() {
+        Ok(o) => o,
+        Err(e) => {
+            x.notes.insert("release_probe".into(), json!({"status": format!("not run: {}", e)}));
+            return;
+        }
+    };
+    let stdout = String::from_utf8_lossy(&out.stdout);
+    if !out.status.success() || !stdout.lines().any(|l| l.trim() == "DONE") {
+        // the probe uses doc-hidden helpers of the crate (labeled_extract, Kem::decap); a tree that
+        // changed those is not judged by this observer
+        let err: String = String::from_utf8_lossy(&out.stderr).lines().filter(|l| l.starts_with("error")).take(3).collect::<Vec<_>>().join(" / ");
+        x.notes.insert("release_probe".into(), json!({"status": "unobservable: the probe does not build or run against this tree", "detail": err}));
+        return;
+    }
+    let mut seen = 0u64;
+    let mut judged = 0u64;
+    let mut found: Vec<String> = Vec::new();
+    for l in stdout.lines().filter(|l| l.starts_with("RESULT ")) {
+        if l.contains("control=SEEN") {
+            seen += 1;
+            if l.contains("=WIPED") || l.contains("=FOUND") {
+                judged += 1;
+            }
+            if l.contains("nonce=FOUND") || l.contains("exporter=FOUND") {
+                found.push(l.to_string());
+            }
+        }
+    }
+    x.evaluations += judged;
+    x.notes.insert("release_probe".into(), json!({"status": if seen == 0 { "unobservable: the control object is not visible after free in this build" } else { "run" }, "probes_with_visible_control": seen, "judged": judged, "secrets_found_after_free": found.len()}));
+    if let Some(first) = found.first() {
+        x.failure = Some((
+            "C16/release-build/secret-survives-free".into(),
+            format!("in an optimised build without the verification hooks a dropped heap-allocated context still holds its secrets in the freed block ({} of {} probes): {}", found.len(), judged, first),
+            json!({"probe": "release_wipe", "lines": found}),
+        ));
+    }
+}
+
 impl Property for P {
     type Case = Case;
     fn id(&self) -> &'static str {
@@ -187,7 +258,7 @@ impl Property for P {
         "Generated: (suite of 48, mode, session inputs, role in {sender context, receiver context, shared secret from encap, shared secret from decap}, 0..=2 operations on the context before the drop, drop either directly or while the thread unwinds from a caught panic); swept: all 48 suites x 4 modes x 4 roles, contexts also after one operation, and every suite once with a drop during unwinding. \
          Oracle (memory image): the value is moved into a pattern-filled Box<MaybeUninit<_>>; base nonce, exporter secret (read through the read-only hook accessors) and the shared secret (public field) must be found BY VALUE in the slot before drop_in_place (otherwise the case is skipped as not observable) and be absent afterwards with zero bytes at those offsets. \
          A copy of a secret that is present after the drop at an offset where the fresh value did not have it was written by an operation and is reported; copies already present in the fresh value outside the live field (stale stack bytes inside uninitialised union storage) are recorded as an observation only. Oracle (ledger hook, single-threaded run): per context lifetime >=1 wiping drop of the temporary AEAD key buffer, of a nonce, the exporter secret and the shared secret, and zero drops that left non-zero bytes. \
-         Non-trivial: cases in which every secret was located before the drop."
+         A constant-XOR-masked copy of a secret found after the drop is reported too (a keyed HMAC object kept in the context). Extra phase: probes/c16 is built in release mode WITHOUT the hook cfg and checks, for 4 suites x 2 modes x 2 roles, that the freed block of a dropped Box<context> no longer holds the secrets (with a control object that shows the observer works in that build). Non-trivial: cases in which every secret was located before the drop."
             .into()
     }
     fn assumptions(&self) -> Vec<String> {
@@ -230,5 +301,13 @@ impl Property for P {
     }
     fn single_threaded(&self) -> bool {
         true
+    }
+    fn extra(&self, _tier: Tier, _seed: u64, x: &mut Extra) {
+        release_probe(x);
+    }
+    fn replay_extra(&self, payload: &serde_json::Value, x: &mut Extra) {
+        if payload["probe"] == "release_wipe" {
+            release_probe(x);
+        }
     }
 }
